@@ -2138,6 +2138,10 @@ func (m *repoManager) findMatch(kvv kvVersions, v dvid.VersionID) (*storage.KeyV
 		case 0:
 			return nil, 0, nil
 		case 1:
+			// The last match of the scan above may be one of those just removed.
+			for fv := range foundVs {
+				foundKV, foundV = kvv[fv].kv, fv
+			}
 			if foundKV.K == nil {
 				return nil, 0, fmt.Errorf("found nil key in ascending version path for kv: %v", foundKV)
 			}
